@@ -21,8 +21,15 @@ import numpy as np
 from core import Driver, Failure, nl, q
 
 ID = "C16"
-PROOF_MODULES = ["PyribsProofs.C16"]
+from genf import translate  # noqa: E402,F401  (regenerates lean/PyribsGen/Formulas.lean from the tree under check)
+PROOF_MODULES = ["PyribsProofs.C16", "PyribsGen.Formulas", "PyribsProofs.GenFCtl"]
 THEOREMS = [
+    # the UCB1 score of BanditScheduler.ask, regenerated from the source
+    "Pyribs.GenFProofs.ucb1_matches",
+    "Pyribs.GenFProofs.ucb_mono_success",
+    "Pyribs.GenFProofs.ucb_zeta_zero",
+    "Pyribs.GenFProofs.ucb_no_bonus_before_success",
+    "Pyribs.GenFProofs.ucb_mono_zeta",
     "Pyribs.C16.num_active_invariant",
     "Pyribs.C16.num_active_run",
     "Pyribs.C16.ask_never_index_error",
